@@ -276,6 +276,9 @@ def e2e_elemwise(chunkss, light=False):
             x, dx = xs[0], ds[0]
             _same("astype(f4)", dx.astype("f4"), x.astype("f4"), info)
             _same("astype(bool)", dx.astype(bool), x.astype(bool), info)
+            if x.ndim:      # (NumPy scalars come back in native byte order)
+                sw = x.dtype.newbyteorder()
+                _same("astype(byte-swapped dtype)", dx.astype(sw), x.astype(sw), info)
             _same("clip", da.clip(dx, 2, 7), np.clip(x, 2, 7), info)
             _same("negative", -dx, -x, info)
             _same("x+x", dx + dx, x + x, info)
@@ -286,6 +289,19 @@ def e2e_elemwise(chunkss, light=False):
         _same("x+y", r, x + y, info)
         _blocks_ok("x+y", r, info)
         _same("x<y", dx < dy, x < y, info)
+        if x.ndim:
+            sw = x.dtype.newbyteorder()
+            _same("astype(byte-swapped dtype)", dx.astype(sw), x.astype(sw), info)
+            _same("(x+y).astype(byte-swapped dtype)", (dx + dy).astype(sw), (x + y).astype(sw), info)
+        # the same ufunc on the same operands with and without dtype= in ONE graph: each keeps its own result
+        lo = "f4" if np.result_type(x, y).kind == "f" else "i2"
+        a, b = da.add(dx, dy, dtype=lo), da.add(dx, dy)
+        ga, gb = da.compute(a, b, scheduler="sync")
+        wa, wb = np.add(x, y, dtype=lo, casting="unsafe"), np.add(x, y)
+        if a.dtype != wa.dtype or ga.dtype != wa.dtype or not np.array_equal(ga, wa):
+            raise Violation(f"add(x, y, dtype={lo}) computed together with add(x, y): dtype {ga.dtype} / values differ from NumPy's {wa.dtype} ({info})")
+        if gb.dtype != wb.dtype or not np.array_equal(gb, wb):
+            raise Violation(f"add(x, y) computed together with add(x, y, dtype={lo}): dtype {gb.dtype} / values differ from NumPy's {wb.dtype} ({info})")
         _same("where(c,x,y)", da.where(dx > 3, dx, dy), np.where(x > 3, x, y), info)
         if len(ds) == 3:
             z, dz = xs[2], ds[2]
